@@ -184,6 +184,34 @@ def gen_cases(rng, tier):
             cases.append(mk(0, 0, LHS_XY, [1, rng.choice([0, 1]), 0], [0], 1, [l], "nulltype"))
             if len(cases) % 3 == 0:  # literal rendering of tuples for a NullType parameter: AttributeError (known)
                 cases.append(mk(1, 0, LHS_XY, [1, rng.choice([0, 1]), 0], [0], 1, [l], "nulltype"))
+    # --- long lists (around the powers of two): every value must be bound, none added
+    for n in (15, 16, 17, 18, 31, 32, 33, 34, 47, 63, 64, 65, 70):
+        for op in (0, 1):
+            l = [rng.choice([1, 3, -1, 4]) for _ in range(n)]       # never 2: the row x = 2 must be FALSE / TRUE, not NULL
+            cases.append(mk(0, 0, LHS_X, [0, op, 0], [0], 1, [l], "long"))
+            cases.append(mk(0, 1, LHS_X, [0, op, rng.choice([0, 1])], [0], 1, [l], "long"))
+            cases.append(mk(2, 0, LHS_X, [0, op, 0], [0], 2, [l, l[: n // 2], l], "long"))
+    # --- oracle-only families (the model has one expanding parameter per statement)
+    #  8: one cached statement "x IN :p (bound)  AND/OR  y [NOT] IN :q (literal_execute)" executed for a
+    #     sequence of (p, q), lengths repeating with different values
+    for _ in range(400 if tier == "thorough" else 70):
+        lp, lq = rng.choice([1, 2, 3]), rng.choice([0, 1, 2])
+        seq = []
+        for _ in range(rng.randint(2, 5)):
+            if rng.random() < 0.25:
+                lp, lq = rng.choice([0, 1, 2, 3]), rng.choice([0, 1, 2])
+            seq.append([[enc_sv(rng.choice(XS)) for _ in range(lp)], [enc_sv(rng.choice(YS)) for _ in range(lq)]])
+        cases.append({"in": [8, rng.choice([0, 1]), rng.choice([0, 1]), seq], "kind": "mixed-literal-execute", "model": False})
+    #  7: ONE expanding bindparam used by an IN and a NOT IN
+    for vals in ([], [1], [None], [1, 2]):
+        for order in (0, 1):
+            for d in (0, 1):
+                cases.append({"in": [7, order, d, [enc_sv(v) for v in vals]], "kind": "shared-param", "model": False})
+    #  6: a column type with bind_expression (lower(..))
+    for vals in ([], ["A"], ["a", None]):
+        for op in (0, 1):
+            for d in (0, 1):
+                cases.append({"in": [6, d, op, [enc_sv(v) for v in vals]], "kind": "bind-expression", "model": False})
     # --- random longer lists
     n_rand = 1200 if tier == "thorough" else 150
     for _ in range(n_rand):
@@ -197,7 +225,7 @@ def gen_cases(rng, tier):
 
 
 def nontrivial(c):
-    return len(c["in"][6]) >= 1
+    return c["in"][0] >= 6 or len(c["in"][6]) >= 1
 
 
 # ------------------------------------------------------------------ implementation side
@@ -428,7 +456,70 @@ def _engine_exec(engine, lhs, expr, vals, pos, mode, cached):
     return [0, tokenize(region, pname), _args_tree(tuple(params), pname), truths]
 
 
+def _ids_raw(sql_expr, args):
+    import sqlite3
+
+    q = re.sub(r"%\((\w+)\)s", r":\1", sql_expr).replace("%s", "?")
+    try:
+        return [r[0] for r in _S["raw"].execute("SELECT t.id FROM t WHERE %s ORDER BY t.id" % q, args)]
+    except (sqlite3.OperationalError, sqlite3.ProgrammingError):
+        return [9]
+
+
+def _impl_extra(c):
+    from sqlalchemy import Column, Integer, MetaData, String, Table, and_, bindparam, exc, func, or_, select
+    from sqlalchemy.types import TypeDecorator
+
+    fam = c["in"][0]
+    t = _S["t"]
+    out = []
+    if fam == 8:
+        _, conn_, negq, seq = c["in"]
+        p = bindparam("p", expanding=True)
+        q = bindparam("q", expanding=True, literal_execute=True)
+        right = t.c.y.not_in(q) if negq else t.c.y.in_(q)
+        stmt = select(t.c.id).where((or_ if conn_ else and_)(t.c.x.in_(p), right)).order_by(t.c.id)
+        engine = _new_engine()
+        with engine.connect() as conn:
+            for pv, qv in seq:
+                try:
+                    out.append([r[0] for r in conn.execute(stmt, {"p": [dec_sv(v) for v in pv], "q": [dec_sv(v) for v in qv]})])
+                except exc.OperationalError:
+                    out.append([9])
+        engine.dispose()
+        return out
+    if fam == 7:
+        _, order, d, vals = c["in"]
+        bp = bindparam("q", expanding=True)
+        a, b = t.c.x.in_(bp), t.c.id.not_in(bp)
+        e = or_(b, a) if order else or_(a, b)
+    else:
+        _, d, op, vals = c["in"]
+        if "low" not in _S:
+            class Low(TypeDecorator):
+                impl = String
+                cache_ok = True
+
+                def bind_expression(self, bindvalue):
+                    return func.lower(bindvalue)
+
+            _S["low"] = Table("t", MetaData(), Column("id", Integer, primary_key=True), Column("x", Integer), Column("y", Low))
+        t2 = _S["low"]
+        e = t2.c.y.not_in([dec_sv(v) for v in vals]) if op else t2.c.y.in_([dec_sv(v) for v in vals])
+    vals = [dec_sv(v) for v in vals]
+    comp = e.compile(dialect=_S["dialects"][d])
+    pname = _expanding_name(comp)
+    try:
+        es = comp.construct_expanded_state({pname: vals})
+    except (NotImplementedError, KeyError, IndexError, TypeError, AttributeError) as ex:
+        return [[_EXC[type(ex).__name__]]]
+    args = es.positional_parameters if comp.positional else es.parameters
+    return [_ids_raw(es.statement, args)]
+
+
 def impl(c):
+    if c["in"][0] >= 6:
+        return _impl_extra(c)
     way, d, lhs, expr, pos, mode, lists, rows = c["in"]
     if rows != 0:
         raise ValueError("unexpected row set")
@@ -529,7 +620,53 @@ def expected_truths(lhs, expr, pos, mode, vals):
     return out
 
 
+def _in3(x, vs):
+    t = 0
+    for v in vs:
+        t = _or3(t, _eq3(x, v))
+    return t
+
+
+def _oracle_extra(c, obs):
+    fam = c["in"][0]
+    if fam == 8:
+        _, conn_, negq, seq = c["in"]
+        for k, (pv, qv) in enumerate(seq):
+            pv, qv = [dec_sv(v) for v in pv], [dec_sv(v) for v in qv]
+            want = []
+            for rid, x, y in ROWS:
+                b = _in3(y, qv)
+                b = _not3(b) if negq else b
+                tt = (_or3 if conn_ else _and3)(_in3(x, pv), b)
+                if tt == 1:
+                    want.append(rid)
+            if obs[k] != want:
+                return "execution %d of one cached statement: x IN %r %s y %sIN %r (literal_execute) returned ids %s, expected %s" % (
+                    k, pv, "OR" if conn_ else "AND", "NOT " if negq else "", qv, obs[k], want)
+        return None
+    if fam == 7:
+        _, order, d, vals = c["in"]
+        vals = [dec_sv(v) for v in vals]
+        want = [rid for rid, x, y in ROWS if _or3(_in3(x, vals), _not3(_in3(rid, vals))) == 1]
+        desc = "x IN :q OR id NOT IN :q with the shared list %r" % (vals,)
+    else:
+        _, d, op, vals = c["in"]
+        vals = [dec_sv(v) for v in vals]
+        low = [v.lower() if isinstance(v, str) else v for v in vals]
+        want = [rid for rid, x, y in ROWS if (_not3(_in3(y, low)) if op else _in3(y, low)) == 1]
+        desc = "y %sIN %r for a type with bind_expression" % ("NOT " if op else "", vals)
+    if len(obs[0]) == 1 and obs[0][0] in (1, 2, 3, 4, 5) and not (obs[0] == want):
+        return "%s raised exception code %s" % (desc, obs[0][0])
+    if obs[0] == [9] and want != [9]:
+        return "%s: the rendered SQL does not execute" % desc
+    if obs[0] != want:
+        return "%s returned ids %s, expected %s" % (desc, obs[0], want)
+    return None
+
+
 def oracle(c, obs):
+    if c["in"][0] >= 6:
+        return _oracle_extra(c, obs)
     way, d, lhs, expr, pos, mode, lists, rows = c["in"]
     lists = [[dec_val(v) for v in l] for l in lists]
     ways = {0: "bound", 1: "literal_binds", 2: "re-bound on a cached statement", 3: "re-expanded (render_postcompile)"}
@@ -554,6 +691,13 @@ def oracle(c, obs):
 
 
 def match_finding(c, what):
+    if c["in"][0] == 7:
+        # one BindParameter, two clauses: the empty-set text of the clone compiled last is used for both
+        return "C07-shared-expanding-param-expand-op" if (c["in"][2] == 1 and not c["in"][3]) else None
+    if c["in"][0] == 6:
+        return "C07-empty-in-bind-expression" if not c["in"][3] else None
+    if c["in"][0] >= 6:
+        return None
     way, d, lhs, expr, pos, mode, lists, rows = c["in"]
     if way == 1 and d == 0 and lhs[0] == 1 and expr[0] == 0 and "does not execute" in what and any(len(l) == 0 for l in lists):
         return "C07-literal-empty-tuple-values-sqlite"
